@@ -139,6 +139,9 @@ def gen_split_case(rng, idx):
         return {'kind': 'split', 'mode': mode, 'top': '\n'.join(top) + '\n', 'flat': flat_text, 'files': sp.files, 'depth': depth, 'dir': 'c%d' % idx}
     sp = Splitter(rng, mode, rng.randint(1, 4))
     top = sp.split(items, 0, rng.choice([0.3, 0.5, 0.8]))
+    if mode == 'nosp' and rng.random() < 0.1:
+        # without a search path any readable non-directory is read; the null device holds no text at all
+        top.insert(rng.randint(0, len(top)), 'include("/dev/null")')
     return {'kind': 'split', 'mode': mode, 'top': '\n'.join(top) + '\n', 'flat': '\n'.join(flat(items)) + '\n', 'files': sp.files, 'depth': sp.deepest, 'dir': 'c%d' % idx,
             'envs': sp.envs}
 
